@@ -502,10 +502,34 @@ fn detach_variable_value(value: &Value) -> Value {
 // the first write; otherwise the statement fails with part of it done.
 // `ixes` holds one index per subscript position (`x[ix]` or `x[row_ix,col_ix]`).
 #[cfg(feature = "subscript")]
-fn check_assign_bounds(sink: &Value, ixes: &[Value]) -> MResult<()> {
+fn check_assign_bounds(sink: &Value, source: &Value, ixes: &[Value]) -> MResult<()> {
   let shape = sink.shape();
   if shape.len() != 2 {
     return Ok(());
+  }
+  // `x[ixes] = v` with a vector source pairs the i-th index with the i-th
+  // source element: a source shorter than the index list would be read past
+  // its end after the first elements had been written.
+  #[cfg(feature = "matrix")]
+  if let ([Value::MatrixIndex(ix)], true) = (ixes, source.is_matrix()) {
+    let source_shape = source.shape();
+    let source_len: usize = source_shape.iter().product();
+    let ix_len = ix.as_vec().len();
+    if source_len < ix_len {
+      return Err(MechError::new(DimensionMismatch { dims: vec![ix_len, source_len] }, None).with_compiler_loc());
+    }
+  }
+  // With a logical mask the source is read at the selected positions, so it
+  // has to reach the last selected one.
+  #[cfg(all(feature = "matrix", feature = "bool"))]
+  if let ([Value::MatrixBool(mask)], true) = (ixes, source.is_matrix()) {
+    let source_shape = source.shape();
+    let source_len: usize = source_shape.iter().product();
+    if let Some(last) = mask.as_vec().iter().rposition(|selected| *selected) {
+      if source_len <= last {
+        return Err(MechError::new(DimensionMismatch { dims: vec![last + 1, source_len] }, None).with_compiler_loc());
+      }
+    }
   }
   let limits = match ixes.len() {
     1 => vec![shape[0] * shape[1]],
@@ -600,7 +624,7 @@ macro_rules! op_assign {
               },
               x => todo!("{:?}", x),
             };
-            if let Err(err) = check_assign_bounds(&fxn_input[0], &fxn_input[2..]) {
+            if let Err(err) = check_assign_bounds(&fxn_input[0], &fxn_input[1], &fxn_input[2..]) {
               plan.borrow_mut().pop();
               return Err(err);
             }
@@ -806,7 +830,7 @@ pub fn subscript_ref(sbscrpt: &Subscript, sink: &Value, source: &Value, env: Opt
         },
         _ => unreachable!(),
       };
-      if let Err(err) = check_assign_bounds(&fxn_input[0], &fxn_input[2..]) {
+      if let Err(err) = check_assign_bounds(&fxn_input[0], &fxn_input[1], &fxn_input[2..]) {
         plan.borrow_mut().pop();
         return Err(err);
       }
